@@ -1,0 +1,16 @@
+//go:build verif
+
+package verifhook
+
+import (
+	"github.com/linkedin/go-zk"
+
+	"github.com/linkedin/Burrow/core/internal/zookeeper"
+	"github.com/linkedin/Burrow/core/protocol"
+)
+
+// StartZookeeper runs the zookeeper coordinator's real Start on a given client and session-event channel.
+func StartZookeeper(app *protocol.ApplicationContext, client protocol.ZookeeperClient, events <-chan zk.Event) error {
+	_, err := zookeeper.VerifStartWith(app, client, events)
+	return err
+}
